@@ -1,6 +1,6 @@
 import Proofs.C10.FinMulti
 import Proofs.C10.Wrapped
-import Proofs.C10.MultiA
+import Proofs.C10.MultiAStack
 import Proofs.C10.MiniTemplates
 import Proofs.C10.ExampleKey
 import Proofs.C10.ExampleEcdsa
@@ -1255,6 +1255,24 @@ theorem closure_taproot_multi_a (env : VerifyEnv) (q control : Bytes) (m k : Nat
         .ok true) :
     verifyScript env [] (p2tr q) ((ps.map (·.2)).reverse ++ [multiAScript k (ps.map (·.1)), control]) = .ok () :=
   verify_tr_multi_a env q control m k ps hq hW hnz hcl hm hv hk hn hn999 hp hsl hcnt hcom
+
+/-- T1 (taproot script path, `multi_a` leaf) ON THE LAYOUT `MultiA._stack` BUILDS: `keys` in script order, `offered` what
+    each key offers; whenever `_stack` answers a witness (at least `k` keys signed) that witness, the leaf and the control
+    block are accepted -- no counting hypothesis: that exactly `k` elements are non-empty, each the signature of ITS key,
+    is proved of `multiAFill`.  Every offered signature is one the Schnorr oracle accepts (50..520 bytes). -/
+theorem closure_taproot_multi_a_stack (env : VerifyEnv) (q control : Bytes) (m k : Nat) (keys : List Bytes)
+    (offered : List (Option Bytes)) (w : List Bytes)
+    (hq : q.length = 32) (hW : has env.flags FLAG_WITNESS = true) (hnz : castToBool q = true)
+    (hcl : control.length = 33 + 32 * m) (hm : m ≤ 128) (hv : getB control 0 / 2 * 2 = 0xc0)
+    (hk : 1 ≤ k ∧ k ≤ 16) (hn : 1 ≤ keys.length) (hn999 : keys.length ≤ 999) (hlen : offered.length = keys.length)
+    (hkeys : ∀ x ∈ keys, x.length = 32)
+    (hoff : ∀ key s, (key, some s) ∈ keys.zip offered →
+      env.checker.checkSchnorr s key .TAPSCRIPT 0xFFFFFFFF = none ∧ 50 ≤ s.length ∧ s.length ≤ 520)
+    (hw : multiAStack k offered = some w)
+    (hcom : env.commitment control q (env.taggedHash "TapLeaf".toUTF8.toList
+      (UInt8.ofNat 0xc0 :: (Core.compactSize (multiAScript k keys).length ++ multiAScript k keys))) = .ok true) :
+    verifyScript env [] (p2tr q) (w ++ [multiAScript k keys, control]) = .ok () :=
+  verify_tr_multi_a_stack env q control m k keys offered w hq hW hnz hcl hm hv hk hn hn999 hlen hkeys hoff hw hcom
 
 /-- an element of a `multi_a` satisfaction made with `Btc.EC.ops secp256k1`: the empty vector, or `ssa.sign_` by the key
     whose x-only octets are `key` over BIP342's message of THIS input (+ hash-type byte unless DEFAULT) -/
